@@ -497,6 +497,17 @@ def run(ctx):
     modstate = [U(s.targets[0]) for s in t.body if isinstance(s, ast.Assign)]
     ctx.check(not stores and not modstate, 'C06.R4', 'CryptographyEngine|stateless', '%s CryptographyEngine' % CRYPTO, 'no instance or module state is written outside __init__',
               'the crypto engine keeps state across calls (cached key material?): %s %s' % (stores, modstate))
+    # ---------------- C06.R8 (lifted from C05)
+    ctx.rule('C06.R8', 'no handler other than the attribute and lifecycle operations writes a field of a loaded object - in particular the key material (.value) handed to the cryptographic engine is what is stored, not something a previous Get-with-wrapping left on the instance (lifted from C05.R7)')
+    from ..report import Ctx as _LCtx
+    from . import c05 as _lsrc
+    _sub = _LCtx('C05', 'quick', ctx.src, 0)
+    _lsrc.run(_sub)
+    _lifted = [f for f in _sub.findings if f.rule == 'C05.R7']
+    for f in _lifted:
+        ctx.fail('C06.R8', f.key, f.site, f.message)
+    if not _lifted:
+        ctx.ok('C06.R8', 'kmip/services/server/engine.py', 'no read-only handler modifies a loaded object')
     ctx.not_decided += ['equality of MAC/derive/wrap/encrypt outputs with reference implementations (numeric)', 'Decrypt inverting Encrypt for every input; tag verification; bit/byte length of derived keys',
                         'randomness quality / freshness across calls beyond provenance from os.urandom']
     ctx.assumptions += ['class names of the cryptography package denote the primitives of that name', 'T_ALIAS: RC4 = ARC4, PKCS5 = PKCS7 padding']
